@@ -7,5 +7,5 @@ ByAll == [j \in 1..Len(items) |-> IF j \in DOMAIN iby THEN iby[j] ELSE "?"]
 OkAll == [j \in 1..Len(items) |-> IF j \in DOMAIN linkok THEN (IF linkok[j] THEN "t" ELSE "f") ELSE "?"]
 EmitB == Done => PrintT("B " \o ToJson([flavour |-> flavour, ver |-> ver, tgtc |-> tgtc, elsc |-> elsc,
                                           targets |-> targets, items |-> items, by |-> ByAll,
-                                          ok |-> OkAll, phase |-> phase, res1 |-> res1]))
+                                          ok |-> OkAll, stretch |-> stretch, phase |-> phase, res1 |-> res1]))
 =============================================================================
